@@ -12,7 +12,7 @@ URGENT_KINDS = {"Initialize", "Interruption"}
 
 class C01(Prop):
     id = "C01"
-    props_file = ["Props/C01.v", "Props/C01_Bridge.v"]
+    props_file = ["Props/C01.v", "Props/C01_Bridge.v", "Props/C01_Examples.v"]
     coq_imports = kc.COQ_IMPORTS
     n_quick = 800
     n_thorough = 12000
